@@ -8,7 +8,7 @@ import signal
 import subprocess
 import time
 
-from common import KSIM_BIN, HarnessError
+from common import reset_signal_state, KSIM_BIN, HarnessError
 from psim import Rng, proc_state
 
 FLAGS = os.WNOHANG | os.WUNTRACED | os.WCONTINUED
@@ -136,6 +136,56 @@ def run_real(case):
     return out
 
 
+def run_real_isolated(cases):
+    """the real processes live in a session and process group of their own whose parent is the session leader:
+    however this check was launched (background job, orphaned process group, signals ignored or blocked by the
+    caller), SIGTSTP stops them and nothing is inherited from the caller's signal state"""
+    r, w = os.pipe()
+    a = os.fork()
+    if a == 0:
+        code = 1
+        try:
+            os.close(r)
+            os.setsid()
+            b = os.fork()
+            if b == 0:
+                try:
+                    os.setpgid(0, 0)
+                    reset_signal_state()
+                    try:
+                        res = {"ok": [run_real(c) for c in cases]}
+                    except HarnessError as e:
+                        res = {"error": str(e)}
+                    data = json.dumps(res).encode()
+                    while data:
+                        n = os.write(w, data)
+                        data = data[n:]
+                    os._exit(0)
+                finally:
+                    os._exit(3)
+            os.close(w)
+            _, st = os.waitpid(b, 0)
+            code = 0 if st == 0 else 1
+        finally:
+            os._exit(code)
+    os.close(w)
+    chunks = []
+    while True:
+        d = os.read(r, 1 << 16)
+        if not d:
+            break
+        chunks.append(d)
+    os.close(r)
+    os.waitpid(a, 0)
+    try:
+        res = json.loads(b"".join(chunks).decode())
+    except ValueError:
+        raise HarnessError("fidelity: the real-process side gave no result")
+    if "error" in res:
+        raise HarnessError(res["error"])
+    return res["ok"]
+
+
 def run(seed, count):
     """returns (validated, mismatches[list])"""
     cases = [gen_case(Rng(seed, 7_000_000 + i)) for i in range(count)]
@@ -147,8 +197,8 @@ def run(seed, count):
     if len(sim) != len(cases):
         raise HarnessError("ksim kernel answered %d of %d cases" % (len(sim), len(cases)))
     bad = []
-    for c, s in zip(cases, sim):
-        real = run_real(c)
+    reals = run_real_isolated(cases)
+    for c, s, real in zip(cases, sim, reals):
         if real != s:
             bad.append({"case": c, "real": real, "sim": s})
     return len(cases) - len(bad), bad
